@@ -5,6 +5,7 @@ import StepModel.P21.FloatShape
 import StepModel.P21.FloatRead
 import StepModel.P21.FloatSeventeen
 import StepModel.P21.FloatNearest
+import StepModel.P21.FloatFifteen
 import StepModel.P21.AggrLemmas
 import StepModel.P21.RtsLemmas
 import StepModel.Generated.P21RWGen
@@ -961,7 +962,7 @@ theorem C09_never_silent_real_midstream {F} (ops : FloatOps F) (lookup : Int →
     hypotheses, validated against libc by `checks/c09.py` (`fl g15`, `fl parse`, the writer grid), never axioms.
     * `shape` (L2): `%.15G` prints optional `-`, digits, optionally `.` digits, optionally `E` sign digits;
     * `stable` (L1): reading the printed text gives the value back (for the 15-digit writer: expected of every double that is
-      the nearest double of a decimal with at most 15 significant digits — `DBL_DIG`, not proved here; for the repaired writer
+      the nearest normal double of a decimal with at most 15 significant digits — `DBL_DIG`, `fifteen_digits_survive`; for the repaired writer
       `dblOpsRT` it is a theorem for every finite double: `dbl_fmtShortest_stable` + `C09_writer_seventeen_digits_convert_back`). -/
 structure FloatLaws {F} (ops : FloatOps F) (v : F) : Prop where
   shape : G15Shape (ops.fmtG15 v)
@@ -1009,7 +1010,7 @@ theorem C09_writer_real_conforming_model (bits : Nat) (hfin : (bits / Dbl.pow2 5
   ⟨h.1, h.1, h.2⟩
 
 /-- … and it reads back: for every finite double whose 15-digit print converts back to it (`stable`: expected of the doubles nearest to a
-    decimal of at most 15 significant digits — DBL_DIG, not proved here; validated against the platform on the writer grid) and that is not
+    decimal of at most 15 significant digits — DBL_DIG, `C09_writer_real_fifteen_digit_decimals_survive`; validated against the platform on the writer grid) and that is not
     the in-band null, the written token followed by any `Gap` and a delimiter is read to the same double with no error.
     Only `stable` remains a hypothesis; the shape law is discharged by the model. -/
 theorem C09_writer_real_reads_back_model (cfg : LexCfg) (lookup : Int → RefLookup) (nullable : Bool) (bits : Nat)
@@ -1131,7 +1132,7 @@ theorem C09_real_zero_value (neg : Bool) (E : Int) : dblOps.ofDecimal ⟨neg, 0,
 /-- … and for the 15-digit writer (`dblOps`, the unrepaired `WriteReal` and `asStr`): `hstable` of
     `C09_writer_real_reads_back_model` reduced the same way — the written token reads back to the value whenever the double's 15
     significant digits are rounded back to it (`SigDigitsReadBack 15 bits`: true of every double that came from a decimal of at
-    most 15 digits, DBL_DIG; false e.g. of 0.1 + 0.2, `C09_writer_fifteen_digits_witness`) -/
+    most 15 digits, DBL_DIG — `C09_writer_real_fifteen_digit_decimals_survive`; false e.g. of 0.1 + 0.2, `C09_writer_fifteen_digits_witness`) -/
 theorem C09_writer_real_reads_back_arith (cfg : LexCfg) (lookup : Int → RefLookup) (nullable : Bool) (bits : Nat)
     (hlt : bits < 2 ^ 64) (hfin : (bits / Dbl.pow2 52 % 2048 == 2047) = false)
     (h15 : (bits / Dbl.pow2 52 % 2048 == 0 && bits % Dbl.pow2 52 == 0) = false → SigDigitsReadBack 15 bits)
@@ -1148,6 +1149,25 @@ theorem C09_writer_real_reads_back_arith (cfg : LexCfg) (lookup : Int → RefLoo
     | none => rw [hp] at h; cases h
     | some dd => rw [hp] at h; exact ⟨dd, rfl, by simpa using h⟩
   exact C09_writer_real_reads_back_model cfg lookup nullable bits hfin hst hnn hbuf sp rest d hsp hd
+
+/-- **DBL_DIG, proved for the model: 15-digit decimals survive even the 15-digit writer.**  A REAL value that came from a decimal of
+    at most 15 significant digits (`M < 10^15`; e.g. read from such a token: `bits = ofDecimal` of the decimal it denotes, a
+    normal double) is written by the *unrepaired* `WriteReal` — `%.15G`, `dblOps` — as a token that reads back to exactly that
+    double: `fifteen_digits_survive` (`P21/FloatFifteen.lean`) shows that `%.15G` prints a decimal of the *same value* (the
+    double is within half a unit in the last place of the decimal, `ofDecimal_nearest`; 15-digit decimals are further apart
+    than doubles, `10^15 < 2^52 · 10`; the printed digits are the nearest 15-digit decimal, `sigDigits_spec`), and the
+    conversion depends on sign and value only (`ofDecimal_congr`), ties included. -/
+theorem C09_writer_real_fifteen_digit_decimals_survive (cfg : LexCfg) (lookup : Int → RefLookup) (nullable : Bool)
+    (neg : Bool) (M : Nat) (E : Int) (hM : 0 < M) (hM15 : M < 10 ^ 15) (bits : Nat) (hlt : bits < 2 ^ 64)
+    (h : dblOps.ofDecimal ⟨neg, M, E⟩ = some bits)
+    (hnorm : 1 ≤ bits / Dbl.pow2 52 % 2048) (hfin : (bits / Dbl.pow2 52 % 2048 == 2047) = false)
+    (hnn : dblOps.isRealNull bits = false)
+    (hbuf : cfg.realBuf = 0 ∨ (attrWrite dblOps .real (.real bits)).length < cfg.realBuf)
+    (sp rest : List Byte) (d : Byte) (hsp : Gap cfg sp) (hd : d = 44 ∨ d = 41) :
+    attrRead dblOps cfg lookup .real nullable (IStream.ofBytes (attrWrite dblOps .real (.real bits) ++ sp ++ d :: rest)) =
+      .ok ⟨.null, .real bits, { left := sp.reverse ++ (attrWrite dblOps .real (.real bits)).reverse, right := d :: rest }⟩ :=
+  C09_writer_real_reads_back_arith cfg lookup nullable bits hlt hfin
+    (fun _ => fifteen_digits_survive neg M E hM hM15 bits hlt h hnorm hfin) hnn hbuf sp rest d hsp hd
 
 /-- ±0 needs no hypothesis at all: `0.` / `-0.` reads back to the same bit pattern (the sign of zero is kept) -/
 theorem C09_writer_real_zero_round_trips (p : Nat) (hp : 1 ≤ p) :
@@ -3033,9 +3053,10 @@ theorem C09_aggr_no_missing_element {F} (env : Env F) (hm : env.cfg.aggrReportsM
     element of a `LoopRun` does (`C09_aggr_never_silent_partial`) — its severity is NULL, what it took is a token of the
     `integer` grammar in `long` range followed by separators, the stored value is the token's, and the stream rests at its
     end or in front of a delimiter.  Together: an aggregate of INTEGER stored without error consists of grammar tokens
-    with their values, one per position.  The hypothesis `hsA` names what is not proved here: a specification of
-    `ReadTokenSeparator` (comments and print control directives, C01's model) on arbitrary input; the other element kinds
-    have this statement at attribute level only (`C09_never_silent_*`). -/
+    with their values, one per position — up to what `ReadTokenSeparator` skipped in front of each of them (exclusion (3) of
+    `C09_aggr_never_silent_partial`).  The hypothesis `hsA` — the shape of the stream behind the token-separator skip — is
+    discharged for every stream by `C09_aggr_hsA_general` (`readTokenSeparator_head`): see the `_any_stream` versions below;
+    the other element kinds have the same statement (`C09_aggr_*_element_never_silent`). -/
 theorem C09_aggr_integer_element_never_silent {F} (env : Env F) (hcfg : env.lex.intReportsFail = true) (s : IStream)
     (l : List Byte) (c : Byte) (t : List Byte) (sk : Bool)
     (hsA : (if env.cfg.aggrSkipsComments then readTokenSeparator s else s) = G l (c :: t) sk) (hc : isSpace c = false)
